@@ -47,6 +47,16 @@ type codeCfg struct {
 	prelude   string          // Lean text placed after the structure (environment conventions of this type)
 	skip      map[string]string // methods deliberately not translated → reason
 	ctors     []string          // package-level functions of the shape `return &T{…}` to translate as constructors
+	// strings as byte lists (the models of the request accessors compute on bytes) instead of Lean's String
+	stringBytes bool
+	// Go type (types.TypeString with full package paths) → the Lean type that stands for it
+	types map[string]string
+	// library functions and methods (types.Func.FullName()) → the Lean function that stands for them (pure: no state)
+	lib map[string]string
+	// fields of library structs ("pkgpath.Type.Field") → the Lean function applied to the value
+	libFields map[string]string
+	// a struct field whose type has no Lean counterpart becomes `Opaque` (a method that touches it is untranslated)
+	opaqueFields bool
 }
 
 type unsupported struct{ why string }
@@ -75,13 +85,26 @@ type goTranslator struct {
 }
 
 // leanType maps a Go type to the Lean type that stands for it.
+func fullType(t types.Type) string {
+	return types.TypeString(t, func(p *types.Package) string { return p.Path() })
+}
+
 func (g *goTranslator) leanType(t types.Type) string {
+	if lt, ok := g.cfg.types[fullType(t)]; ok {
+		return lt
+	}
+	if a, ok := t.(*types.Alias); ok {
+		return g.leanType(types.Unalias(a))
+	}
 	switch u := t.(type) {
 	case *types.Basic:
 		switch {
 		case u.Info()&types.IsInteger != 0:
 			return "Int"
 		case u.Info()&types.IsString != 0:
+			if g.cfg.stringBytes {
+				return "Bytes"
+			}
 			return "String"
 		case u.Info()&types.IsBoolean != 0:
 			return "Bool"
@@ -91,6 +114,8 @@ func (g *goTranslator) leanType(t types.Type) string {
 			return "Bytes"
 		}
 		return "List " + g.leanTypeAtom(u.Elem())
+	case *types.Map:
+		return "List (" + g.leanType(u.Key()) + " × " + g.leanType(u.Elem()) + ")"
 	case *types.Named:
 		o := u.Obj()
 		if o.Pkg() != nil && o.Pkg().Path() == "sync" && o.Name() == "Once" {
@@ -104,7 +129,7 @@ func (g *goTranslator) leanType(t types.Type) string {
 			return "Env"
 		case *types.Signature:
 			return "FuncVal"
-		case *types.Basic, *types.Slice:
+		case *types.Basic, *types.Slice, *types.Map:
 			return g.leanType(u.Underlying())
 		}
 	case *types.Interface:
@@ -118,6 +143,23 @@ func (g *goTranslator) leanType(t types.Type) string {
 	}
 	bad("type %s has no Lean counterpart in this subset", t.String())
 	return ""
+}
+
+// fieldType: like leanType, but a field type outside the subset may be kept as `Opaque`
+func (g *goTranslator) fieldType(t types.Type) (lt string) {
+	if !g.cfg.opaqueFields {
+		return g.leanType(t)
+	}
+	defer func() {
+		if r := recover(); r != nil {
+			if _, ok := r.(unsupported); ok {
+				lt = "Opaque"
+				return
+			}
+			panic(r)
+		}
+	}()
+	return g.leanType(t)
 }
 
 func (g *goTranslator) leanTypeAtom(t types.Type) string {
@@ -136,6 +178,8 @@ func zeroOf(leanT string) string {
 		return "false"
 	case "String":
 		return "\"\""
+	case "Opaque":
+		return "()"
 	}
 	if strings.HasPrefix(leanT, "List ") || leanT == "Bytes" {
 		return "[]"
@@ -158,6 +202,7 @@ type mctx struct {
 	loopSl   string   // text of the slice expression of that loop
 	loopElem string
 	calls    map[string]bool // methods of the receiver this method calls
+	retOpt   bool            // inside the body of a range loop: `return x` is `some x`, falling through is `none`
 }
 
 func (m *mctx) fresh() string { m.tmp++; return fmt.Sprintf("t%d", m.tmp) }
@@ -294,6 +339,13 @@ func (m *mctx) envCall(field, method string, args []ast.Expr, nres int) string {
 
 func (m *mctx) expr(e ast.Expr) string {
 	if tv, ok := m.g.info.Types[e]; ok && tv.Value != nil {
+		if m.g.cfg.stringBytes && tv.Value.Kind() == constant.String {
+			sv := constant.StringVal(tv.Value)
+			if sv == "" {
+				return "([] : Bytes)"
+			}
+			return "(" + leanBytes(sv) + " : Bytes) /- " + strings.ReplaceAll(leanStr(sv), "-/", "- /") + " -/"
+		}
 		if s, ok := constLit(tv.Value); ok {
 			return s
 		}
@@ -322,6 +374,13 @@ func (m *mctx) expr(e ast.Expr) string {
 			}
 			return leanIdent(m.recv) + "." + leanIdent(x.Sel.Name)
 		}
+		if sel := m.g.info.Selections[x]; sel != nil && sel.Kind() == types.FieldVal {
+			key := fieldOwner(sel) + "." + x.Sel.Name
+			if fn, ok := m.g.cfg.libFields[key]; ok {
+				return "(" + fn + " " + m.atom(x.X) + ")"
+			}
+			bad("field %s of a library type is not in the table", key)
+		}
 		bad("selector %s", goExprText(x))
 	case *ast.IndexExpr:
 		if m.loopIdx != "" && goExprText(x.X) == m.loopSl {
@@ -329,7 +388,35 @@ func (m *mctx) expr(e ast.Expr) string {
 				return m.loopElem
 			}
 		}
-		bad("index expression outside the loop idiom")
+		if tv, ok := m.g.info.Types[x.X]; ok {
+			switch tv.Type.Underlying().(type) {
+			case *types.Map:
+				return "(GoSem.mapGet " + m.atom(x.X) + " " + m.atom(x.Index) + ")"
+			case *types.Slice:
+				// NOT represented: Go panics when the index is out of range; `idx` then yields the zero value
+				return "(GoSem.idx " + m.atom(x.X) + " " + m.atom(x.Index) + ")"
+			}
+		}
+		bad("index expression on %s", goExprText(x.X))
+	case *ast.SliceExpr:
+		if x.Slice3 {
+			bad("three-index slice")
+		}
+		// NOT represented: Go panics when a bound is out of range; `sliceTo/sliceFrom` then clamp
+		switch {
+		case x.Low == nil && x.High != nil:
+			return "(GoSem.sliceTo " + m.atom(x.X) + " " + m.atom(x.High) + ")"
+		case x.Low != nil && x.High == nil:
+			return "(GoSem.sliceFrom " + m.atom(x.X) + " " + m.atom(x.Low) + ")"
+		}
+		bad("slice expression with both or no bounds")
+	case *ast.CompositeLit:
+		if tv, ok := m.g.info.Types[x]; ok {
+			if _, isSl := tv.Type.Underlying().(*types.Slice); isSl && len(x.Elts) == 0 {
+				return "([] : " + m.g.leanType(tv.Type) + ")"
+			}
+		}
+		bad("composite literal")
 	case *ast.UnaryExpr:
 		switch x.Op {
 		case token.NOT:
@@ -382,7 +469,91 @@ func (m *mctx) expr(e ast.Expr) string {
 	return ""
 }
 
+// atom: an expression as an argument of a Lean application
+func (m *mctx) atom(e ast.Expr) string {
+	s := m.expr(e)
+	if strings.ContainsAny(s, " ") && !(strings.HasPrefix(s, "(") && strings.HasSuffix(s, ")") && balanced(s[1:len(s)-1])) {
+		return "(" + s + ")"
+	}
+	return s
+}
+
+func balanced(s string) bool {
+	d := 0
+	for _, r := range s {
+		switch r {
+		case '(':
+			d++
+		case ')':
+			d--
+			if d < 0 {
+				return false
+			}
+		}
+	}
+	return d == 0
+}
+
+// fieldOwner: "pkgpath.Type" of the struct that declares the selected field (through embedded fields)
+func fieldOwner(sel *types.Selection) string {
+	t := sel.Recv()
+	path := sel.Index()
+	owner := ""
+	for _, i := range path {
+		if p, ok := t.Underlying().(*types.Pointer); ok {
+			t = p.Elem()
+		}
+		if p, ok := t.(*types.Pointer); ok {
+			t = p.Elem()
+		}
+		st, ok := t.Underlying().(*types.Struct)
+		if !ok {
+			return owner
+		}
+		if n, ok := t.(*types.Named); ok && n.Obj().Pkg() != nil {
+			owner = n.Obj().Pkg().Path() + "." + n.Obj().Name()
+		}
+		t = st.Field(i).Type()
+	}
+	return owner
+}
+
+// libFunc: the function a call expression calls, when it is a library function or method in the table
+func (m *mctx) libFunc(c *ast.CallExpr) (lean string, recv ast.Expr, ok bool) {
+	var id *ast.Ident
+	switch f := c.Fun.(type) {
+	case *ast.Ident:
+		id = f
+	case *ast.SelectorExpr:
+		id = f.Sel
+		if sel := m.g.info.Selections[f]; sel != nil && sel.Kind() == types.MethodVal {
+			recv = f.X
+		}
+	default:
+		return
+	}
+	fn, isFn := m.g.info.Uses[id].(*types.Func)
+	if !isFn {
+		return
+	}
+	lean, ok = m.g.cfg.lib[fn.FullName()]
+	return
+}
+
 func (m *mctx) call(c *ast.CallExpr) string {
+	if lean, recv, ok := m.libFunc(c); ok {
+		if recv != nil && m.isRecv(recv) {
+			bad("library method on the receiver")
+		}
+		parts := []string{lean}
+		if recv != nil {
+			parts = append(parts, m.atom(recv))
+		}
+		for _, a := range c.Args {
+			parts = append(parts, m.atom(a))
+		}
+		return "(" + strings.Join(parts, " ") + ")"
+	}
 	// conversion
 	if tv, ok := m.g.info.Types[c.Fun]; ok && tv.IsType() {
 		if len(c.Args) != 1 {
@@ -478,11 +649,24 @@ func (m *mctx) call(c *ast.CallExpr) string {
 			}
 			bad("promoted method %s", se.Sel.Name)
 		}
-		args := make([]string, len(c.Args))
+		var args []string
+		fsig := fn.Type().(*types.Signature)
+		np := fsig.Params().Len()
 		for i, a := range c.Args {
-			args[i] = m.expr(a)
-			if strings.Contains(args[i], " ") && !strings.HasPrefix(args[i], "(") {
-				args[i] = "(" + args[i] + ")"
+			if fsig.Variadic() && i >= np-1 {
+				break
+			}
+			args = append(args, m.atom(a))
+		}
+		if fsig.Variadic() {
+			if c.Ellipsis.IsValid() {
+				args = append(args, m.atom(c.Args[len(c.Args)-1]))
+			} else {
+				var extra []string
+				for i := np - 1; i < len(c.Args); i++ {
+					extra = append(extra, m.expr(c.Args[i]))
+				}
+				args = append(args, "["+strings.Join(extra, ", ")+"]")
 			}
 		}
 		m.calls[se.Sel.Name] = true
@@ -582,7 +766,18 @@ func (m *mctx) assigned(stmts []ast.Stmt) (vars []string, recv bool) {
 					vars = append(vars, leanIdent(id.Name))
 				}
 			case *ast.CallExpr:
-				recv = true // any call may reach the receiver (its own methods, the environment, a hook)
+				if _, _, isLib := m.libFunc(x); isLib {
+					break
+				}
+				if tv, ok := m.g.info.Types[x.Fun]; ok && tv.IsType() {
+					break
+				}
+				if id, ok := x.Fun.(*ast.Ident); ok {
+					if _, isB := m.g.info.Uses[id].(*types.Builtin); isB {
+						break
+					}
+				}
+				recv = true // any other call may reach the receiver (its own methods, the environment, a hook)
 			}
 			return true
 		})
@@ -654,6 +849,10 @@ func (m *mctx) stmts(list []ast.Stmt, tail func() string, ind string) string {
 			m.flush(&b, ind)
 			if len(x.Results) == 0 {
 				vals = append([]string{}, m.results...)
+			}
+			if m.retOpt {
+				b.WriteString(ind + "some " + tuple(vals) + "\n")
+				return b.String()
 			}
 			b.WriteString(ind + "(" + tuple(vals) + ", " + leanIdent(m.recv) + ")\n")
 			return b.String()
@@ -729,6 +928,52 @@ func (m *mctx) stmts(list []ast.Stmt, tail func() string, ind string) string {
 			return b.String()
 		case *ast.ForStmt:
 			b.WriteString(m.forRev(x, ind))
+		case *ast.RangeStmt:
+			// `for k, v := range E { … return … }` with a body that changes nothing: a search that may return early
+			if m.retOpt {
+				bad("nested range loops")
+			}
+			if vars, recv := m.assigned(x.Body.List); len(vars) > 0 || recv {
+				bad("a range loop whose body changes state")
+			}
+			if x.Tok != token.DEFINE {
+				bad("range with assignment to existing variables")
+			}
+			if !hasReturn(x.Body) {
+				continue // no effects and no return: nothing happens
+			}
+			e := m.atom(x.X)
+			m.flush(&b, ind)
+			name := func(e ast.Expr) string {
+				if e == nil {
+					return "_"
+				}
+				if id, ok := e.(*ast.Ident); ok {
+					return leanIdent(id.Name)
+				}
+				bad("range into a non-identifier")
+				return ""
+			}
+			k, v := name(x.Key), name(x.Value)
+			src := e
+			switch m.g.info.Types[x.X].Type.Underlying().(type) {
+			case *types.Map:
+			case *types.Slice:
+				src = "(GoSem.enum " + e + ")"
+			default:
+				bad("range over %s", m.g.info.Types[x.X].Type)
+			}
+			if hit := usesAny(rest, declaredIn(x.Body.List)); hit != "" {
+				bad("%s declared in a loop body is also a name used after the loop", hit)
+			}
+			m.retOpt = true
+			body := m.stmts(x.Body.List, func() string { return "none" }, ind+"    ")
+			m.retOpt = false
+			b.WriteString(fmt.Sprintf("%smatch GoSem.forRangeRet %s (fun (%s, %s) =>\n%s%s  ) with\n", ind, src, k, v, body, ind))
+			b.WriteString(fmt.Sprintf("%s| some r_ => (r_, %s)\n%s| none => (\n", ind, leanIdent(m.recv), ind))
+			b.WriteString(m.stmts(rest, tail, ind+"  "))
+			b.WriteString(ind + ")\n")
+			return b.String()
 		case *ast.BlockStmt:
 			if hit := usesAny(rest, declaredIn(x.List)); hit != "" {
 				bad("%s declared in a block is also a name used after it", hit)
@@ -1031,13 +1276,13 @@ func translateType(repo string, cfg codeCfg) (string, error) {
 		out.WriteString(fmt.Sprintf("/-- `type %s struct` of the source, field by field -/\nstructure %s where\n", cfg.recvType, cfg.recvType))
 		for i := 0; i < st.NumFields(); i++ {
 			f := st.Field(i)
-			out.WriteString(fmt.Sprintf("  %s : %s\n", leanIdent(f.Name()), g.leanType(f.Type())))
+			out.WriteString(fmt.Sprintf("  %s : %s\n", leanIdent(f.Name()), g.fieldType(f.Type())))
 		}
 		out.WriteString("\n")
 		// one environment-call helper per field of interface type
 		for i := 0; i < st.NumFields(); i++ {
 			f := st.Field(i)
-			if g.leanType(f.Type()) == "Env" {
+			if g.fieldType(f.Type()) == "Env" {
 				n := leanIdent(f.Name())
 				out.WriteString(fmt.Sprintf("/-- a call of a method of the environment object `%s` -/\ndef envCall_%s (w : %s) (m : String) (args : List Int) : (Int × Int) × %s :=\n  let (r, e) := w.%s.call m args;\n  (r, { w with %s := e })\n\n",
 					f.Name(), f.Name(), cfg.recvType, cfg.recvType, n, n))
